@@ -747,7 +747,7 @@ func IngressPolicyIntersection(p *core.Program, r *core.Report, rule string) {
 		ok := false
 		ast.Inspect(wf.Decl.Body, func(n ast.Node) bool {
 			if c, isC := n.(*ast.CallExpr); isC && core.IsBuiltinCall(winfo, c, "append") && len(c.Args) == 2 {
-				if nm, _ := callName(winfo, c.Args[1]); nm == "newConnlistAnalyzerWarning" {
+				if nm, _ := callName(winfo, ResolveLocal(winfo, wf.Decl.Body, c.Args[1])); nm == "newConnlistAnalyzerWarning" {
 					ok = true
 				}
 			}
